@@ -704,13 +704,43 @@ def run(ctx):
       "edits are single in-place edits from a fresh build (aliasing is a "
       "property of the object graph right after clone(), also walked "
       "exhaustively); nesting of JSON values <= 3",
-      "extension record types registered by the user are not enumerated"]
+      "extension record types: the T / M extension of the tutorial (two "
+      "reference fields), cloned in a process of its own"]
   for r in ctx.pmap(check_item, items, chunksize=4):
     ctx.merge(r)
+  for v in extension_probe():
+    ctx.violation(v)
+  ctx.evaluations += 1
+  ctx.outcomes.add("extension-probe")
   ctx.bound_completed = {"items": len(items), "edit_depth": depth}
 
 
+def extension_probe():
+  """gfamc/ext_clone_probe.py in a fresh interpreter (same gfapy tree)."""
+  import subprocess, sys, os
+  from ..runner import VERIF
+  pr = subprocess.run([sys.executable, "-m", "gfamc.ext_clone_probe"],
+                      cwd=VERIF, capture_output=True, text=True, timeout=300,
+                      env=dict(os.environ, PYTHONHASHSEED="0"))
+  out = []
+  lines = [l for l in pr.stdout.split("\n") if l.startswith("RESULT ")]
+  if not lines:
+    probs = [["extension-probe-raises",
+              (pr.stderr.strip().split("\n") or ["no output"])[-1][:200]]]
+  else:
+    probs = json.loads(lines[-1][7:])
+  for clause, detail in probs:
+    out.append(mkviolation(
+        clause, {"record": "extension", "template": "T/M", "what": detail[:120]},
+        {"kind": "extension", "clause": clause},
+        "a clone of an extension record is detached and independent", detail,
+        "cd /verif && GFAMC_REPO=/repo /venv/bin/python -m gfamc.ext_clone_probe"))
+  return out
+
+
 def replay(w, ctx):
+  if w.get("kind") == "extension":
+    return [v for v in extension_probe() if v["clause"] == w["clause"]]
   item = w["item"]
   res = new_result()
   with guard(60):
